@@ -1,9 +1,481 @@
-import PyXABProofs.Generated.ObjectivesReal
+/-
+  Property C17 — the synthetic objectives never exceed their declared maximum.
+
+  "For every synthetic objective and every point x of its documented domain, f(x) is a finite
+  number not larger than the declared fmax, so the regret fmax - f(x) is never negative; fmax is
+  attained at the documented maximiser for every objective except Garland, whose declared 1
+  overshoots its true maximum by less than 0.003.  Evaluation is a pure function of x (and, for
+  the perturbed variants, of the offset drawn at construction), and a point of the wrong dimension
+  is rejected with ValueError."
+
+  Setting.  `Generated/ObjectivesReal.lean` is the machine translation (regenerated at every check
+  run) of `PyXAB/synthetic_obj/*.py` over the reals: every objective `F` is a function
+  `F.f params (x : List ℝ) : Except Err ℝ` together with its declared `F.fmax`.  The theorems below
+  unfold these generated definitions and argue semantically (helper inequalities over plain reals:
+  `Lemmas/OBJ_Basic.lean`).
+
+  * Finiteness is automatic: a value `v : ℝ` is a real number (no `inf`/`nan` in `ℝ`); what the
+    theorems establish is that the evaluation returns `.ok v` (no exception) with `v ≤ fmax`.
+    (Partial real operations are totalised by Mathlib — `log 0 = 0`, `x / 0 = 0`, `√(-1) = 0` — and
+    every place where the Python code could meet one of them on the documented domain is guarded
+    by the `if` that the code itself contains; the theorems go through these guards.)
+  * Purity is automatic as well: `F.f` is a Lean function of the construction-time parameters
+    (`tmax`, exponents, `perturb`, `k`) and of the point; no state, no randomness.
+
+  1. `X_le_fmax`      : `∃ v, X.f … [coords] = .ok v ∧ v ≤ X.fmax …` on the documented domain
+                        (for most objectives: for all real coordinates), and `X_regret_nonneg`-style
+                        consequences follow by `sub_nonneg`.
+  2. `X_attained`     : `X.f … [maximiser] = .ok (X.fmax …)`, for every objective but Garland.
+  3. Garland          : `Garland_lt_fmax` (1 is never attained on [0,1]), `Garland_near`
+                        (`f(π/6) > 0.997`), `Garland_gap` (`∃ x ∈ [0,1], fmax - f x < 0.003`).
+  4. `X_wrong_dim`    : `xs.length ≠ d → X.f … xs = .error .valueError`.
+  5. non-vacuity `example`s.
+-/
+import PyXABProofs.Lemmas.OBJ_Basic
+
 namespace PyXAB.C17
-open PyXAB.Obj
-/-- placeholder until the analysis development is merged -/
-theorem Himmelblau_le_fmax (x1 x2 : ℝ) : ∃ v, Himmelblau.f [x1, x2] = .ok v ∧ v ≤ Himmelblau.fmax := by
+open PyXAB PyXAB.Obj PyXAB.OBJ
+
+/-! ## 1. Garland and Perturbed_Garland (domain `[0,1]`) -/
+
+theorem Garland_fmax_eq : Garland.fmax = 1 := by simp only [Garland.fmax]
+
+theorem Garland_le_fmax {x : ℝ} (hx0 : 0 ≤ x) (hx1 : x ≤ 1) :
+    ∃ v, Garland.f [x] = .ok v ∧ v ≤ Garland.fmax := by
+  refine ⟨_, rfl, ?_⟩
+  simp only [Garland.fmax]
+  have h := garland_core hx0 hx1 (sqrt_abs_sin_nonneg (60 * x))
+  linarith
+
+/-- the declared maximum `1` is not attained anywhere on `[0,1]`. -/
+theorem Garland_lt_fmax {x : ℝ} (hx0 : 0 ≤ x) (hx1 : x ≤ 1) :
+    ∃ v, Garland.f [x] = .ok v ∧ v < Garland.fmax := by
+  refine ⟨_, rfl, ?_⟩
+  simp only [Garland.fmax]
+  have h := garland_core_lt hx0 hx1 (sqrt_abs_sin_nonneg (60 * x))
+    sqrt_abs_sin_sixty_pos_of_eq_half
+  linarith
+
+/-- near-attainment: `f(π/6) = 4 (π/6)(1 - π/6) > 0.997`. -/
+theorem Garland_near : ∃ v, Garland.f [Real.pi / 6] = .ok v ∧ (0.997 : ℝ) < v := by
+  refine ⟨_, rfl, ?_⟩
+  simp only [sin_sixty_mul_pi_div_six, abs_zero, Real.sqrt_zero]
+  have h := garland_value_pi_div_six
+  linarith
+
+/-- the declared `fmax = 1` overshoots the true supremum over `[0,1]` by less than `0.003`. -/
+theorem Garland_gap :
+    ∃ x : ℝ, 0 ≤ x ∧ x ≤ 1 ∧ ∃ v, Garland.f [x] = .ok v ∧ Garland.fmax - v < 0.003 := by
+  obtain ⟨v, hv, hlt⟩ := Garland_near
+  refine ⟨Real.pi / 6, pi_div_six_mem.1, pi_div_six_mem.2, v, hv, ?_⟩
+  simp only [Garland.fmax]
+  norm_num at hlt ⊢
+  linarith
+
+theorem Perturbed_Garland_le_fmax (perturb : ℝ) {x : ℝ} (hx0 : 0 ≤ x) (hx1 : x ≤ 1) :
+    ∃ v, Perturbed_Garland.f perturb [x] = .ok v ∧ v ≤ Perturbed_Garland.fmax perturb := by
+  refine ⟨_, rfl, ?_⟩
+  simp only [Perturbed_Garland.fmax]
+  have h := garland_core hx0 hx1 (sqrt_abs_sin_nonneg (60 * x))
+  linarith
+
+theorem Perturbed_Garland_lt_fmax (perturb : ℝ) {x : ℝ} (hx0 : 0 ≤ x) (hx1 : x ≤ 1) :
+    ∃ v, Perturbed_Garland.f perturb [x] = .ok v ∧ v < Perturbed_Garland.fmax perturb := by
+  refine ⟨_, rfl, ?_⟩
+  simp only [Perturbed_Garland.fmax]
+  have h := garland_core_lt hx0 hx1 (sqrt_abs_sin_nonneg (60 * x))
+    sqrt_abs_sin_sixty_pos_of_eq_half
+  linarith
+
+theorem Perturbed_Garland_near (perturb : ℝ) :
+    ∃ v, Perturbed_Garland.f perturb [Real.pi / 6] = .ok v ∧ (0.997 : ℝ) + perturb < v := by
+  refine ⟨_, rfl, ?_⟩
+  simp only [sin_sixty_mul_pi_div_six, abs_zero, Real.sqrt_zero]
+  have h := garland_value_pi_div_six
+  linarith
+
+theorem Perturbed_Garland_gap (perturb : ℝ) :
+    ∃ x : ℝ, 0 ≤ x ∧ x ≤ 1 ∧
+      ∃ v, Perturbed_Garland.f perturb [x] = .ok v ∧ Perturbed_Garland.fmax perturb - v < 0.003 := by
+  obtain ⟨v, hv, hlt⟩ := Perturbed_Garland_near perturb
+  refine ⟨Real.pi / 6, pi_div_six_mem.1, pi_div_six_mem.2, v, hv, ?_⟩
+  simp only [Perturbed_Garland.fmax]
+  norm_num at hlt ⊢
+  linarith
+
+/-! ## 2. DoubleSine and Perturbed_DoubleSine -/
+
+theorem DoubleSine_fmax_eq : DoubleSine.fmax = 0 := by simp only [DoubleSine.fmax]; norm_num
+
+/-- the bound holds for arbitrary exponents, `tmax` and real `x`. -/
+theorem DoubleSine_le_fmax_gen (tmax ep2 ep1 x : ℝ) :
+    ∃ v, DoubleSine.f tmax ep2 ep1 [x] = .ok v ∧ v ≤ DoubleSine.fmax := by
+  refine ⟨_, rfl, ?_⟩
+  have h00 : (0.0 : ℝ) = 0 := by norm_num
+  simp only [DoubleSine.fmax, h00]
+  split_ifs with hu
+  · exact le_refl _
+  · have hu0 := two_abs_nonneg (x - tmax)
+    have h := dsine_core
+      (mysin2_nonneg (Real.log (2 * |x - tmax|) / Real.log 2 / 2.0))
+      (mysin2_le_one (Real.log (2 * |x - tmax|) / Real.log 2 / 2.0))
+      (Real.rpow_nonneg hu0 ep2) (Real.rpow_nonneg hu0 ep1)
+    linarith
+
+/-- the documented instance: `rho1, rho2 ∈ (0,1]`, `tmax ∈ [0,1]`, `x ∈ [0,1]`. -/
+theorem DoubleSine_le_fmax {rho1 rho2 tmax x : ℝ}
+    (_h1 : 0 < rho1 ∧ rho1 ≤ 1) (_h2 : 0 < rho2 ∧ rho2 ≤ 1)
+    (_ht : 0 ≤ tmax ∧ tmax ≤ 1) (_hx : 0 ≤ x ∧ x ≤ 1) :
+    ∃ v, DoubleSine.f (DoubleSine.tmax tmax) (DoubleSine.ep2 rho2) (DoubleSine.ep1 rho1) [x] = .ok v
+      ∧ v ≤ DoubleSine.fmax :=
+  DoubleSine_le_fmax_gen _ _ _ _
+
+theorem DoubleSine_attained (tmax ep2 ep1 : ℝ) :
+    DoubleSine.f tmax ep2 ep1 [tmax] = .ok DoubleSine.fmax := by
+  simp only [DoubleSine.f, DoubleSine.fmax, sub_self, abs_zero, mul_zero, if_true]
+
+theorem DoubleSine_attained' (rho1 rho2 tmax : ℝ) :
+    DoubleSine.f (DoubleSine.tmax tmax) (DoubleSine.ep2 rho2) (DoubleSine.ep1 rho1)
+      [DoubleSine.tmax tmax] = .ok 0 := by
+  rw [DoubleSine_attained, DoubleSine_fmax_eq]
+
+/-- side fact: the exponents are non-negative for `rho ∈ (0,1]`. -/
+theorem DoubleSine_ep_nonneg {rho : ℝ} (h0 : 0 < rho) (h1 : rho ≤ 1) :
+    0 ≤ DoubleSine.ep1 rho ∧ 0 ≤ DoubleSine.ep2 rho := by
+  simp only [DoubleSine.ep1, DoubleSine.ep2]
+  exact ⟨neg_log_div_log_two_nonneg h0 h1, neg_log_div_log_two_nonneg h0 h1⟩
+
+theorem Perturbed_DoubleSine_le_fmax_gen (tmax perturb ep2 ep1 x : ℝ) :
+    ∃ v, Perturbed_DoubleSine.f tmax perturb ep2 ep1 [x] = .ok v
+      ∧ v ≤ Perturbed_DoubleSine.fmax perturb := by
+  refine ⟨_, rfl, ?_⟩
+  have h00 : (0.0 : ℝ) = 0 := by norm_num
+  simp only [Perturbed_DoubleSine.fmax, h00]
+  split_ifs with hu
+  · exact le_refl _
+  · have hu0 := two_abs_nonneg (x - tmax)
+    have h := dsine_core
+      (mysin2_nonneg (Real.log (2 * |x - tmax|) / Real.log 2 / 2.0))
+      (mysin2_le_one (Real.log (2 * |x - tmax|) / Real.log 2 / 2.0))
+      (Real.rpow_nonneg hu0 ep2) (Real.rpow_nonneg hu0 ep1)
+    linarith
+
+theorem Perturbed_DoubleSine_le_fmax {rho1 rho2 tmax x : ℝ} (perturb : ℝ)
+    (_h1 : 0 < rho1 ∧ rho1 ≤ 1) (_h2 : 0 < rho2 ∧ rho2 ≤ 1)
+    (_ht : 0 ≤ tmax ∧ tmax ≤ 1) (_hx : 0 ≤ x ∧ x ≤ 1) :
+    ∃ v, Perturbed_DoubleSine.f (Perturbed_DoubleSine.tmax tmax) perturb
+        (Perturbed_DoubleSine.ep2 rho2) (Perturbed_DoubleSine.ep1 rho1) [x] = .ok v
+      ∧ v ≤ Perturbed_DoubleSine.fmax perturb :=
+  Perturbed_DoubleSine_le_fmax_gen _ _ _ _ _
+
+theorem Perturbed_DoubleSine_attained (tmax perturb ep2 ep1 : ℝ) :
+    Perturbed_DoubleSine.f tmax perturb ep2 ep1 [tmax] = .ok (Perturbed_DoubleSine.fmax perturb) := by
+  simp only [Perturbed_DoubleSine.f, Perturbed_DoubleSine.fmax, sub_self, abs_zero, mul_zero,
+    if_true]
+
+theorem Perturbed_DoubleSine_fmax_eq (perturb : ℝ) : Perturbed_DoubleSine.fmax perturb = perturb := by
+  simp only [Perturbed_DoubleSine.fmax]; norm_num
+
+/-! ## 3. DifficultFunc (domain `[0,1]`; the bound in fact holds for every real `x`) -/
+
+theorem DifficultFunc_fmax_eq : DifficultFunc.fmax = 0 := by
+  simp only [DifficultFunc.fmax]; norm_num
+
+theorem DifficultFunc_le_fmax_gen (x : ℝ) :
+    ∃ v, DifficultFunc.f [x] = .ok v ∧ v ≤ DifficultFunc.fmax := by
+  refine ⟨_, rfl, ?_⟩
+  have h00 : (0.0 : ℝ) = 0 := by norm_num
+  simp only [DifficultFunc.fmax, h00]
+  split_ifs with hy
+  · exact le_refl _
+  · have h := difficult_core (y := |x - 0.5|) (threshold_cases (Real.log |x - 0.5|))
+    linarith
+
+theorem DifficultFunc_le_fmax {x : ℝ} (_hx0 : 0 ≤ x) (_hx1 : x ≤ 1) :
+    ∃ v, DifficultFunc.f [x] = .ok v ∧ v ≤ DifficultFunc.fmax :=
+  DifficultFunc_le_fmax_gen x
+
+theorem DifficultFunc_attained : DifficultFunc.f [0.5] = .ok DifficultFunc.fmax := by
+  simp only [DifficultFunc.f, DifficultFunc.fmax, sub_self, abs_zero, if_true]
+  norm_num
+
+/-! ## 4. Ackley and Ackley_Normalized (all of `ℝ²`) -/
+
+theorem Ackley_le_fmax (x1 x2 : ℝ) : ∃ v, Ackley.f [x1, x2] = .ok v ∧ v ≤ Ackley.fmax := by
+  refine ⟨_, rfl, ?_⟩
+  simp only [Ackley.fmax]
+  have h := ackley_core (a := 0.5 * (x1 ^ 2 + x2 ^ 2))
+    (Real.cos_le_one (2 * Real.pi * x1)) (Real.cos_le_one (2 * Real.pi * x2))
+  linarith
+
+theorem Ackley_attained : Ackley.f [0, 0] = .ok Ackley.fmax := by
+  simp only [Ackley.f, Ackley.fmax]
+  norm_num
+
+theorem Ackley_fmax_eq : Ackley.fmax = 0 := by simp only [Ackley.fmax]
+
+theorem Ackley_Normalized_le_fmax (x1 x2 : ℝ) :
+    ∃ v, Ackley_Normalized.f [x1, x2] = .ok v ∧ v ≤ Ackley_Normalized.fmax := by
+  refine ⟨_, rfl, ?_⟩
+  simp only [Ackley_Normalized.fmax]
+  refine div_nonpos_of_nonpos_of_nonneg ?_ (abs_nonneg _)
+  have h := ackley_core (a := 0.5 * (x1 ^ 2 + x2 ^ 2))
+    (Real.cos_le_one (2 * Real.pi * x1)) (Real.cos_le_one (2 * Real.pi * x2))
+  linarith
+
+theorem Ackley_Normalized_attained : Ackley_Normalized.f [0, 0] = .ok Ackley_Normalized.fmax := by
+  simp only [Ackley_Normalized.f, Ackley_Normalized.fmax]
+  norm_num
+
+theorem Ackley_Normalized_fmax_eq : Ackley_Normalized.fmax = 0 := by
+  simp only [Ackley_Normalized.fmax]
+
+/-! ## 5. Himmelblau and Himmelblau_Normalized (all of `ℝ²`) -/
+
+theorem Himmelblau_le_fmax (x1 x2 : ℝ) :
+    ∃ v, Himmelblau.f [x1, x2] = .ok v ∧ v ≤ Himmelblau.fmax := by
   refine ⟨_, rfl, ?_⟩
   simp only [Himmelblau.fmax]
   nlinarith [sq_nonneg (x1 ^ 2 + x2 - 11), sq_nonneg (x1 + x2 ^ 2 - 7)]
+
+theorem Himmelblau_attained : Himmelblau.f [3, 2] = .ok Himmelblau.fmax := by
+  simp only [Himmelblau.f, Himmelblau.fmax]
+  norm_num
+
+theorem Himmelblau_fmax_eq : Himmelblau.fmax = 0 := by simp only [Himmelblau.fmax]
+
+theorem Himmelblau_Normalized_le_fmax (x1 x2 : ℝ) :
+    ∃ v, Himmelblau_Normalized.f [x1, x2] = .ok v ∧ v ≤ Himmelblau_Normalized.fmax := by
+  refine ⟨_, rfl, ?_⟩
+  simp only [Himmelblau_Normalized.fmax]
+  refine div_nonpos_of_nonpos_of_nonneg ?_ (by norm_num)
+  nlinarith [sq_nonneg (x1 ^ 2 + x2 - 11), sq_nonneg (x1 + x2 ^ 2 - 7)]
+
+theorem Himmelblau_Normalized_attained :
+    Himmelblau_Normalized.f [3, 2] = .ok Himmelblau_Normalized.fmax := by
+  simp only [Himmelblau_Normalized.f, Himmelblau_Normalized.fmax]
+  norm_num
+
+theorem Himmelblau_Normalized_fmax_eq : Himmelblau_Normalized.fmax = 0 := by
+  simp only [Himmelblau_Normalized.fmax]
+
+/-! ## 6. Rastrigin and Rastrigin_Normalized (every dimension, all of `ℝ^d`) -/
+
+theorem Rastrigin_le_fmax (xs : List ℝ) : ∃ v, Rastrigin.f xs = .ok v ∧ v ≤ Rastrigin.fmax := by
+  refine ⟨_, rfl, ?_⟩
+  simp only [Rastrigin.fmax]
+  refine foldl_nonpos _ ?_ xs 0 le_rfl
+  intro acc xi hacc
+  have h := rastrigin_step (x := xi) hacc (Real.cos_le_one (2 * Real.pi * xi))
+  linarith
+
+theorem Rastrigin_attained (d : ℕ) : Rastrigin.f (List.replicate d 0) = .ok Rastrigin.fmax := by
+  simp only [Rastrigin.f, Rastrigin.fmax]
+  rw [foldl_replicate_fix _ 0 0 (by norm_num)]
+
+theorem Rastrigin_fmax_eq : Rastrigin.fmax = 0 := by simp only [Rastrigin.fmax]
+
+theorem Rastrigin_Normalized_le_fmax {k : ℝ} (hk : 0 ≤ k) (xs : List ℝ) :
+    ∃ v, Rastrigin_Normalized.f (Rastrigin_Normalized.k k) xs = .ok v
+      ∧ v ≤ Rastrigin_Normalized.fmax := by
+  refine ⟨_, rfl, ?_⟩
+  simp only [Rastrigin_Normalized.fmax, Rastrigin_Normalized.k]
+  refine div_nonpos_of_nonpos_of_nonneg ?_ (mul_nonneg hk (Nat.cast_nonneg _))
+  refine foldl_nonpos _ ?_ xs 0 le_rfl
+  intro acc xi hacc
+  have h := rastrigin_step (x := xi) hacc (Real.cos_le_one (2 * Real.pi * xi))
+  linarith
+
+/-- the default normalisation constant `k = 20`. -/
+theorem Rastrigin_Normalized_le_fmax_default (xs : List ℝ) :
+    ∃ v, Rastrigin_Normalized.f (Rastrigin_Normalized.k 20) xs = .ok v
+      ∧ v ≤ Rastrigin_Normalized.fmax :=
+  Rastrigin_Normalized_le_fmax (by norm_num) xs
+
+theorem Rastrigin_Normalized_attained (k : ℝ) (d : ℕ) :
+    Rastrigin_Normalized.f k (List.replicate d 0) = .ok Rastrigin_Normalized.fmax := by
+  simp only [Rastrigin_Normalized.f, Rastrigin_Normalized.fmax]
+  rw [foldl_replicate_fix _ 0 0 (by norm_num), zero_div]
+
+theorem Rastrigin_Normalized_fmax_eq : Rastrigin_Normalized.fmax = 0 := by
+  simp only [Rastrigin_Normalized.fmax]
+
+/-! ## 7. Cexample (domain `[0, 1/e]`) -/
+
+theorem Cexample_fmax_eq : Cexample.fmax = 1 := by simp only [Cexample.fmax]
+
+theorem Cexample_le_fmax {x : ℝ} (hx0 : 0 ≤ x) (hx1 : x ≤ Real.exp (-1)) :
+    ∃ v, Cexample.f [x] = .ok v ∧ v ≤ Cexample.fmax := by
+  refine ⟨_, rfl, ?_⟩
+  simp only [Cexample.fmax]
+  split_ifs with h0
+  · exact le_refl _
+  · have h := cexample_core_le (lt_of_le_of_ne hx0 (Ne.symm h0)) hx1
+    linarith
+
+/-- (extra) on its domain the function is also non-negative, so the regret is at most `1`. -/
+theorem Cexample_nonneg {x : ℝ} (hx0 : 0 ≤ x) (hx1 : x ≤ Real.exp (-1)) :
+    ∃ v, Cexample.f [x] = .ok v ∧ 0 ≤ v := by
+  refine ⟨_, rfl, ?_⟩
+  simp only []
+  split_ifs with h0
+  · exact zero_le_one
+  · have h := cexample_core_ge (lt_of_le_of_ne hx0 (Ne.symm h0)) hx1
+    linarith
+
+theorem Cexample_attained : Cexample.f [0] = .ok Cexample.fmax := by
+  simp only [Cexample.f, Cexample.fmax, if_true]
+
+/-! ## 8. Wrong dimension ⇒ `ValueError` -/
+
+theorem Garland_wrong_dim (xs : List ℝ) (h : xs.length ≠ 1) :
+    Garland.f xs = .error .valueError := by
+  match xs, h with
+  | [], _ => rfl
+  | [_], h => exact absurd rfl h
+  | _ :: _ :: _, _ => rfl
+
+theorem Perturbed_Garland_wrong_dim (perturb : ℝ) (xs : List ℝ) (h : xs.length ≠ 1) :
+    Perturbed_Garland.f perturb xs = .error .valueError := by
+  match xs, h with
+  | [], _ => rfl
+  | [_], h => exact absurd rfl h
+  | _ :: _ :: _, _ => rfl
+
+theorem DoubleSine_wrong_dim (tmax ep2 ep1 : ℝ) (xs : List ℝ) (h : xs.length ≠ 1) :
+    DoubleSine.f tmax ep2 ep1 xs = .error .valueError := by
+  match xs, h with
+  | [], _ => rfl
+  | [_], h => exact absurd rfl h
+  | _ :: _ :: _, _ => rfl
+
+theorem Perturbed_DoubleSine_wrong_dim (tmax perturb ep2 ep1 : ℝ) (xs : List ℝ)
+    (h : xs.length ≠ 1) :
+    Perturbed_DoubleSine.f tmax perturb ep2 ep1 xs = .error .valueError := by
+  match xs, h with
+  | [], _ => rfl
+  | [_], h => exact absurd rfl h
+  | _ :: _ :: _, _ => rfl
+
+theorem DifficultFunc_wrong_dim (xs : List ℝ) (h : xs.length ≠ 1) :
+    DifficultFunc.f xs = .error .valueError := by
+  match xs, h with
+  | [], _ => rfl
+  | [_], h => exact absurd rfl h
+  | _ :: _ :: _, _ => rfl
+
+theorem Cexample_wrong_dim (xs : List ℝ) (h : xs.length ≠ 1) :
+    Cexample.f xs = .error .valueError := by
+  match xs, h with
+  | [], _ => rfl
+  | [_], h => exact absurd rfl h
+  | _ :: _ :: _, _ => rfl
+
+theorem Ackley_wrong_dim (xs : List ℝ) (h : xs.length ≠ 2) :
+    Ackley.f xs = .error .valueError := by
+  match xs, h with
+  | [], _ => rfl
+  | [_], _ => rfl
+  | [_, _], h => exact absurd rfl h
+  | _ :: _ :: _ :: _, _ => rfl
+
+theorem Ackley_Normalized_wrong_dim (xs : List ℝ) (h : xs.length ≠ 2) :
+    Ackley_Normalized.f xs = .error .valueError := by
+  match xs, h with
+  | [], _ => rfl
+  | [_], _ => rfl
+  | [_, _], h => exact absurd rfl h
+  | _ :: _ :: _ :: _, _ => rfl
+
+theorem Himmelblau_wrong_dim (xs : List ℝ) (h : xs.length ≠ 2) :
+    Himmelblau.f xs = .error .valueError := by
+  match xs, h with
+  | [], _ => rfl
+  | [_], _ => rfl
+  | [_, _], h => exact absurd rfl h
+  | _ :: _ :: _ :: _, _ => rfl
+
+theorem Himmelblau_Normalized_wrong_dim (xs : List ℝ) (h : xs.length ≠ 2) :
+    Himmelblau_Normalized.f xs = .error .valueError := by
+  match xs, h with
+  | [], _ => rfl
+  | [_], _ => rfl
+  | [_, _], h => exact absurd rfl h
+  | _ :: _ :: _ :: _, _ => rfl
+
+/-- conversely a point of the right dimension is never rejected (shown for one 1-d and one 2-d
+    objective; the `_le_fmax` theorems give it for all of them on their domains). -/
+theorem Garland_ok_of_dim (xs : List ℝ) (h : xs.length = 1) : ∃ v, Garland.f xs = .ok v := by
+  match xs, h with
+  | [_], _ => exact ⟨_, rfl⟩
+
+theorem Himmelblau_ok_of_dim (xs : List ℝ) (h : xs.length = 2) : ∃ v, Himmelblau.f xs = .ok v := by
+  match xs, h with
+  | [_, _], _ => exact ⟨_, rfl⟩
+
+/-! ## 9. Regret is never negative (the form used by the regret computation) -/
+
+theorem Rastrigin_regret_nonneg (xs : List ℝ) :
+    ∃ v, Rastrigin.f xs = .ok v ∧ 0 ≤ Rastrigin.fmax - v := by
+  obtain ⟨v, hv, hle⟩ := Rastrigin_le_fmax xs
+  exact ⟨v, hv, sub_nonneg.mpr hle⟩
+
+theorem Garland_regret_pos {x : ℝ} (hx0 : 0 ≤ x) (hx1 : x ≤ 1) :
+    ∃ v, Garland.f [x] = .ok v ∧ 0 < Garland.fmax - v := by
+  obtain ⟨v, hv, hlt⟩ := Garland_lt_fmax hx0 hx1
+  exact ⟨v, hv, sub_pos.mpr hlt⟩
+
+/-! ## 10. Non-vacuity: the hypotheses are satisfiable and the theorems instantiate -/
+
+example : ∃ v, Garland.f [0.3] = .ok v ∧ v ≤ Garland.fmax :=
+  Garland_le_fmax (by norm_num) (by norm_num)
+
+example : ∃ v, Perturbed_Garland.f 0.01 [1] = .ok v ∧ v ≤ Perturbed_Garland.fmax 0.01 :=
+  Perturbed_Garland_le_fmax 0.01 (by norm_num) (by norm_num)
+
+example : ∃ v, DoubleSine.f (DoubleSine.tmax 0.5) (DoubleSine.ep2 0.8) (DoubleSine.ep1 0.3) [0.25]
+    = .ok v ∧ v ≤ DoubleSine.fmax :=
+  DoubleSine_le_fmax (rho1 := 0.3) (rho2 := 0.8) (tmax := 0.5) (x := 0.25)
+    (by norm_num) (by norm_num) (by norm_num) (by norm_num)
+
+example : DoubleSine.f (DoubleSine.tmax 0.5) (DoubleSine.ep2 0.8) (DoubleSine.ep1 0.3)
+    [DoubleSine.tmax 0.5] = .ok 0 :=
+  DoubleSine_attained' 0.3 0.8 0.5
+
+example : 0 ≤ DoubleSine.ep1 0.3 ∧ 0 ≤ DoubleSine.ep2 0.3 :=
+  DoubleSine_ep_nonneg (by norm_num) (by norm_num)
+
+example : ∃ v, Perturbed_DoubleSine.f (Perturbed_DoubleSine.tmax 0.5) (-0.02)
+    (Perturbed_DoubleSine.ep2 0.8) (Perturbed_DoubleSine.ep1 0.3) [1] = .ok v
+      ∧ v ≤ Perturbed_DoubleSine.fmax (-0.02) :=
+  Perturbed_DoubleSine_le_fmax (rho1 := 0.3) (rho2 := 0.8) (tmax := 0.5) (x := 1) (-0.02)
+    (by norm_num) (by norm_num) (by norm_num) (by norm_num)
+
+example : ∃ v, DifficultFunc.f [0.75] = .ok v ∧ v ≤ DifficultFunc.fmax :=
+  DifficultFunc_le_fmax (by norm_num) (by norm_num)
+
+example : ∃ v, Ackley.f [1, -2.5] = .ok v ∧ v ≤ Ackley.fmax := Ackley_le_fmax 1 (-2.5)
+
+example : ∃ v, Himmelblau.f [-5, 5] = .ok v ∧ v ≤ Himmelblau.fmax := Himmelblau_le_fmax (-5) 5
+
+example : ∃ v, Rastrigin.f [1, 2, 3] = .ok v ∧ v ≤ Rastrigin.fmax := Rastrigin_le_fmax [1, 2, 3]
+
+example : ∃ v, Rastrigin_Normalized.f (Rastrigin_Normalized.k 20) [1, 2] = .ok v
+    ∧ v ≤ Rastrigin_Normalized.fmax :=
+  Rastrigin_Normalized_le_fmax_default [1, 2]
+
+example : Rastrigin.f [0, 0, 0] = .ok 0 := by
+  have h := Rastrigin_attained 3
+  rwa [Rastrigin_fmax_eq] at h
+
+/-- `0.25 ≤ 1/e`. -/
+example : ∃ v, Cexample.f [0.25] = .ok v ∧ v ≤ Cexample.fmax :=
+  Cexample_le_fmax (by norm_num) quarter_le_exp_neg_one
+
+example : Garland.f [1, 2] = .error .valueError := Garland_wrong_dim _ (by simp)
+example : Ackley.f [1] = .error .valueError := Ackley_wrong_dim _ (by simp)
+example : Cexample.f [] = .error .valueError := Cexample_wrong_dim _ (by simp)
+example (a b c : ℝ) (rest : List ℝ) : Himmelblau.f (a :: b :: c :: rest) = .error .valueError :=
+  Himmelblau_wrong_dim _ (by simp)
+
 end PyXAB.C17
